@@ -7,7 +7,9 @@
 (*   list    trim - `values` (excluded); crop - `zones_ids`                                *)
 (*   cells   H x W integers: the raster that is sliced (trim: = data; crop: the `values`   *)
 (*           raster, which carries a unique id per cell)                                   *)
-(*   ys, xs  its coordinates (distinct integers)                                           *)
+(*   ys, xs  distinct integer ids of its rows / columns (the non-index coordinates rowid /  *)
+(*           colid; the index labels themselves may repeat and are compared by the worker   *)
+(*           with the labels at the identified positions: out.other_coords_ok)             *)
 (*   scan    <<top, bottom, left, right>> returned by the compiled _trim / _crop driven    *)
 (*           directly on the same arrays                                                   *)
 (*   out     the returned DataArray: [h, w, cells, ys, xs, attrs_ok, dims_ok, other_coords_ok]   *)
